@@ -70,6 +70,8 @@ def fit_and_measure(case, _model=None):
     g1, g2 = generator(T1.values, p) * us, generator(T2.values, p) * us
     eps = np.random.default_rng(case["noise_seed"]).uniform(-1, 1, len(g1)) * case["noise"]
     obs = g1 * (1 + eps)
+    if case.get("billing"):
+        return fit_and_measure_billing(case, T1, T2, g1, g2, obs)
     with contextlib.redirect_stdout(io.StringIO()), contextlib.redirect_stderr(io.StringIO()):
         base = DailyBaselineData(pd.DataFrame({"temperature": T1, "observed": obs}), is_electricity_data=True)
         m0 = _model
@@ -115,6 +117,41 @@ def fit_and_measure(case, _model=None):
     return out
 
 
+def fit_and_measure_billing(case, T1, T2, g1, g2, obs):
+    """the same building metered MONTHLY: one read on the first of each local month (the sum of the month's days), hourly weather;
+    BillingModel fitted on it, its daily predictions compared with the generating curve on the baseline days and on the other year"""
+    from opendsm.eemeter.models.billing.model import BillingModel
+    from opendsm.eemeter.models.billing.data import BillingBaselineData, BillingReportingData
+    tz = case["tz"]
+    o = pd.Series(obs, index=T1.index)
+    starts = pd.date_range(T1.index[0].normalize(), periods=13, freq="MS", tz=tz)
+    starts = starts[starts <= T1.index[-1] + pd.Timedelta(days=1)]
+    vals = [float(o[(o.index >= a) & (o.index < b)].sum()) for a, b in zip(starts[:-1], starts[1:])] + [np.nan]
+    meter = pd.Series(vals, index=starts, name="observed")
+    with contextlib.redirect_stdout(io.StringIO()), contextlib.redirect_stderr(io.StringIO()):
+        bd = BillingBaselineData.from_series(meter, T1.resample("h").ffill(), is_electricity_data=True)
+        m = BillingModel().fit(bd, ignore_disqualification=True)
+        p1 = m.predict(bd, ignore_disqualification=True)
+        starts2 = pd.date_range(T2.index[0].normalize(), periods=13, freq="MS", tz=tz)
+        starts2 = starts2[starts2 <= T2.index[-1] + pd.Timedelta(days=1)]
+        rd = BillingReportingData.from_series(pd.Series([1.0] * (len(starts2) - 1) + [np.nan], index=starts2, name="observed"),
+                                              T2.resample("h").ffill(), is_electricity_data=True)
+        p2 = m.predict(rd, ignore_disqualification=True)
+    out = dict(model_types={str(k): v.coefficients.model_type.value for k, v in m.params.submodels.items()}, components=[], billing=True)
+    for name, pr, T, g in (("baseline", p1, T1, g1), ("other_year", p2, T2, g2)):
+        j = pr.join(pd.Series(g, index=T.index, name="g"), how="inner")
+        j = j[np.isfinite(j["g"]) & np.isfinite(j["predicted"].astype(float))]
+        f, gg = j["predicted"].to_numpy(dtype=float), j["g"].to_numpy(dtype=float)
+        out[f"nrmse_{name}"] = float(np.sqrt(np.mean((f - gg) ** 2)) / np.mean(gg)) if len(gg) else float("nan")
+        p = case["params"]
+        out[f"phantom_heating_{name}"] = float(np.nansum(j["heating_load"].to_numpy(dtype=float)) / np.sum(gg)) if p["hb_slope"] == 0 and len(gg) else 0.0
+        out[f"phantom_cooling_{name}"] = float(np.nansum(j["cooling_load"].to_numpy(dtype=float)) / np.sum(gg)) if p["cb_slope"] == 0 and len(gg) else 0.0
+        out[f"nan_{name}"] = 0 if len(gg) > 300 else 365 - len(gg)
+    out.update(sse_fit=0.0, sse_truth=0.0, hypothesis_fit_explains_data_as_well_as_truth=False, n_days=int(len(g1)),
+               rms_fit_minus_truth=0.0, two_rms_noise=0.0)
+    return out
+
+
 def explain(case, r):
     """C15-F1: the chosen split has a component in which a true, active balance point lies outside the optimiser's box (fewer than
     segment_minimum_count days of that component lie beyond it) — that component cannot represent the generator."""
@@ -123,6 +160,9 @@ def explain(case, r):
     # Recognised from the INPUT alone: the generating curve's mean daily usage is below 1 unit.
     if float(case.get("unit_scale", 1.0)) * float(case["params"]["base"]) < 1.0:
         return "C15-F3"
+    # C15-F4: monthly-billed buildings (recognised from the input alone: the case is metered monthly)
+    if case.get("billing"):
+        return "C15-F4"
     if any(c["true_balance_point_outside_box"] for c in r.get("components", [])):
         return "C15-F1"
     return None
@@ -240,6 +280,13 @@ def run(ctx):
         b = next((c for c in todo if c["shape"] == "both" and not c.get("history")), todo[0])
         for us in ((1e-3, 1e3) if not thorough else (1e-4, 1e-3, 1e-2, 1e2, 1e3, 1e5)):
             todo.append(dict({k: v for k, v in b.items() if k != "history"}, unit_scale=us))
+    # the same kind of building metered monthly (BillingModel): a heating and a cooling one in the quick tier
+    for shp in (("heating", "cooling") if not thorough else ("heating", "cooling", "both", "flat", "heating", "both")):
+        for _ in range(200):
+            cb = gen_case(rng)
+            if cb["shape"] == shp:
+                break
+        todo.append(dict(cb, billing=True, profile="billing", noise=0.0))
     for case in todo:
         try:
             r = fit_and_measure(case)
